@@ -2,8 +2,8 @@
    Only statements, [exact], Examples and [Print Assumptions] live here. *)
 From Coq Require Import String List Arith Bool.
 Require Import TT.Model.Str TT.Model.C08Fingerprint TT.Model.C08Run.
-Require Import TT.Model.C17History.
-Require Import TT.Proofs.C08RunProofs TT.Proofs.C08FpProofs TT.Proofs.C08Examples TT.Proofs.C17HistoryProofs.
+Require Import TT.Model.C17History TT.Model.C17Trunc.
+Require Import TT.Proofs.C08RunProofs TT.Proofs.C08FpProofs TT.Proofs.C08Examples TT.Proofs.C17HistoryProofs TT.Proofs.C17TruncProofs.
 Import ListNotations.
 
 Notation up_to_date_c := (up_to_date project config sched fname tree tree files).
@@ -113,6 +113,84 @@ Example C17_ex_history :
   d = true /\ fst (run_c true w1 false None st) = Success /\ all_current w1 (snd (run_c true w1 false None st)) = true.
 Proof. exact history_example. Qed.
 
+(* ---------------- faults after the open (Model/C17Trunc.v) ----------------
+   FOpen k: the k-th write fails before the file is touched (the fault of C17_fault). FPost k n rm_ok: the k-th write
+   fails after the target was truncated and n units of its content were written; then write_or_remove removes the file;
+   rm_ok = false: the removal fails as well (its result is ignored) and the file stays, cut to n units (cut_tree n).
+   Every statement is for every k, every n and both values of rm_ok. *)
+
+(* C17_fault for the post-open fault: the run is due to an edit or a missing record. Failure is reported, the record is
+   left alone, the first k files are written and the k-th is absent (removal succeeded) or holds the prefix (removal
+   failed); the record does not vouch; the next non-forced run regenerates everything *)
+Theorem C17_fault_post : forall (w : sched) (st : cstate) (k n : nat) (rm_ok : bool) r st1,
+  run17_c w false (Some (FPost k n rm_ok)) st = (r, st1) -> r <> NoCommands -> r <> UpToDate ->
+  s_cache st <> Some (fp w (s_src st) (s_cfg st)) ->
+  let plan := files w (s_src st) (s_cfg st) in
+  s_src st1 = s_src st /\ s_cfg st1 = s_cfg st /\
+  (k < length plan -> r = Failure /\ s_cache st1 = s_cache st /\
+     (forall f, s_out st1 f =
+        (if rm_ok then unwrite fname tree fname_eqb (nth_error plan k) (write_all fname tree fname_eqb (firstn k plan) (s_out st)) f
+         else leave_cut fname tree fname_eqb cut_tree n (nth_error plan k)
+                        (write_all fname tree fname_eqb (firstn k plan) (s_out st)) f))) /\
+  (length plan <= k -> r = Success /\ s_cache st1 = None /\ up_to_date_c w st1) /\
+  cache_hit_c true w st1 = false /\
+  (forall r2 st2, run_c true w false None st1 = (r2, st2) ->
+     r2 = Success /\ up_to_date_c w st2 /\ s_cache st2 = Some (fp w (s_src st) (s_cfg st))).
+Proof. exact (fault17_post project config sched fname tree tree fname_eqb tree_eqb files fp has_commands g_force cut_tree
+                fname_eqb_spec tree_eqb_spec files_nodup). Qed.
+
+(* recovery after ANY failed run - forced or not, whatever the record (matching: the run was forced or followed the loss
+   of a file), open or post-open fault - outside the class kf_C17_rmfail (removal failed over a matching record): the
+   presence test or the record test refuses the hit and the next non-forced run regenerates everything. This is the
+   statement that the presence test excludes a hit over what a failed write left *)
+Theorem C17_fault_recovery : forall (w : sched) (flag : bool) (ft : fault17) (st st1 : cstate),
+  run17_c w flag (Some ft) st = (Failure, st1) -> kf_C17_rmfail w ft st = false ->
+  s_src st1 = s_src st /\ s_cfg st1 = s_cfg st /\ s_cache st1 = s_cache st /\
+  cache_hit_c true w st1 = false /\
+  forall r2 st2, run_c true w false None st1 = (r2, st2) ->
+    r2 = Success /\ up_to_date_c w st2 /\ s_cache st2 = Some (fp w (s_src st) (s_cfg st)).
+Proof. exact (fault17_recovery project config sched fname tree tree fname_eqb tree_eqb files fp has_commands g_force cut_tree
+                fname_eqb_spec files_nodup). Qed.
+
+(* inside the class the model breaks the property (finding C17-2, confirmed on the real binary): generation; forced run
+   whose first write fails after the open and whose removal fails; the next run answers up to date over the cut file *)
+Theorem C17_rmfail_refuted :
+  let st1 := snd (run17_c w1 false None (init_state p0 c0)) in
+  let ft := FPost 0 0 false in
+  let r2 := run17_c w1 true (Some ft) st1 in
+  let r3 := run17_c w1 false None (snd r2) in
+  kf_C17_rmfail w1 ft st1 = true /\ fst r2 = Failure /\
+  s_out (snd r2) Types = option_map (cut_tree 0) (s_out st1 Types) /\ s_out (snd r2) Types <> s_out st1 Types /\
+  fst r3 = UpToDate /\ all_current w1 (snd r3) = false.
+Proof. exact c17_rmfail_witness. Qed.
+
+(* the invariant over histories whose steps carry the refined faults *)
+Theorem C17_inv_step_post : forall (s : hstate17_c) (h : hstep17t_c), Inv17_c s -> Inv17_c (step17t_c s h).
+Proof. exact (Inv17_step17t project config sched fname tree tree fname_eqb tree_eqb files fp has_commands g_force cut_tree
+                fname_eqb_spec files_nodup). Qed.
+
+Theorem C17_history_post : forall (steps : list hstep17t_c) p c, Inv17_c (fold_left step17t_c steps (init17 p c)).
+Proof. exact Inv17_history17t_c. Qed.
+
+Example C17_ex_post :
+  let st1 := snd (run17_c w1 false None (init_state p0 c0)) in
+  let r2 := run17_c w1 true (Some (FPost 0 0 true)) st1 in
+  let r3 := run17_c w1 false None (snd r2) in
+  let st1e := edited project config fname tree tree (Some (p_field_type, c0)) st1 in
+  let r4 := run17_c w1 false (Some (FPost 1 1 false)) st1e in
+  let r5 := run17_c w1 false None (snd r4) in
+  kf_C17_rmfail w1 (FPost 0 0 true) st1 = false /\ fst r2 = Failure /\ s_out (snd r2) Types = None /\
+  fst r3 = Success /\ all_current w1 (snd r3) = true /\
+  kf_C17_rmfail w1 (FPost 1 1 false) st1e = false /\ fst r4 = Failure /\ s_out (snd r4) Commands <> None /\
+  s_cache st1e <> Some (fp w1 (s_src st1e) (s_cfg st1e)) /\
+  fst r5 = Success /\ all_current w1 (snd r5) = true.
+Proof. exact c17_trunc_example. Qed.
+
+Example C17_ex_history_post :
+  let '(st, g, d) := fold_left step17t_c steps17t_example (init17 p0 c0) in
+  d = false /\ s_cache st = None /\ all_current w1 st = true.
+Proof. exact history17t_example. Qed.
+
 Example C17_ex_premises :
   fst (run_c true w1 false (Some 1) (init_state p0 c0)) = Failure /\
   fst (run_c true w1 false (Some 4) (init_state p0 c0)) = Success /\
@@ -128,3 +206,8 @@ Print Assumptions C17_inv_step.
 Print Assumptions C17_history.
 Print Assumptions C17_history_success_means_current.
 Print Assumptions C17_history_refuted.
+Print Assumptions C17_fault_post.
+Print Assumptions C17_fault_recovery.
+Print Assumptions C17_rmfail_refuted.
+Print Assumptions C17_inv_step_post.
+Print Assumptions C17_history_post.
